@@ -28,11 +28,12 @@ func init() {
 		gen.CheckPure(c.Run, c.Prog, "G-PURE/render-helpers")
 	})
 	register("C04", "other", func(c *Ctx) {
-		skeletonExplain(c, "C04 (every call recorded, in order, exact arguments): exactly one `x = append(x, rec)` per method on a record slice, on every path to the callback and to every normal exit; rec is defined once by a struct literal with one keyed field per parameter in order, named Exported(param) and set to that parameter, of the slice's element type; the only writers of record slices anywhere are append-one and `= nil` (so a returned header is never written below its length and a reset never reuses its array); the accessor returns exactly the header read under the lock; all mock fields work from the zero value; the record is *readable* from inside MFunc (no lock of the mock is held while it runs, no deferred unlock).")
+		skeletonExplain(c, "C04 (every call recorded, in order, exact arguments): exactly one `x = append(x, rec)` per method on a record slice, on every path to the callback and to every normal exit; rec is defined once by a struct literal with one keyed field per parameter in order, named Exported(param) and set to that parameter, of the slice's element type; the only writers of record slices anywhere are append-one and `= nil` (so a returned header is never written below its length and a reset never reuses its array); the accessor returns exactly the header read under the lock; all mock fields work from the zero value; the record is *readable* from inside MFunc (no lock of the mock is held while it runs, no deferred unlock); where reset functions are generated they clear exactly the record slices they name (ResetCalls: all of them), unconditionally.")
 		c.Run.Floor("K-RECORD/append-once", 1)
 		c.Run.Floor("K-RECORD/literal", 3)
 		c.Run.Floor("K-RECORD/accessor", 2)
-		c.RunSkeletons(SkelOpts{Rules: []string{"K-RECORD", "K-FLOW/acyclic", "K-LOCK/held-at-callback", "K-LOCK/defer", "K-LOCK/held-at-exit"}})
+		// "since M was last reset": a reset that names M (ResetMCalls, ResetCalls) leaves M's record empty
+		c.RunSkeletons(SkelOpts{Rules: []string{"K-RECORD", "K-FLOW/acyclic", "K-LOCK/held-at-callback", "K-LOCK/defer", "K-LOCK/held-at-exit", "K-RESET"}})
 	})
 	register("C05", "other", func(c *Ctx) {
 		skeletonExplain(c, "C05 (race freedom of the record lists): Eraser-style lockset discipline on the skeletons — every read or write of a record slice happens with a lock of the receiver certainly held (must-lockset over go/cfg), writes under a write lock, one common lock protects all accesses of a slice across all functions of the mock, distinct methods use distinct slices and locks, lock fields are sync.RWMutex/Mutex values of import path \"sync\" (resolved by go/types, so a user package named sync cannot stand in), receivers are pointers, no reference to the storage escapes. The atomic-list behaviour (count, no tearing, per-goroutine order, prefix-monotone snapshots) follows from these facts plus C04's single append inside one write section and the Go memory model; that derivation is an argument, not machine-checked.")
